@@ -1088,6 +1088,36 @@ Definition nonempty (s : str) : bool := match s with [] => false | _ :: _ => tru
 Definition text_rules (text : str) : list str :=
   filter nonempty (map clean_line (split_lines text)).
 
+(** the scanner delivers every line unless it gives up *)
+Lemma scan_lines_aux_ok : forall s cur n,
+  snd (scan_lines_aux cur n s) = false -> fst (scan_lines_aux cur n s) = split_lines_aux cur s.
+Proof.
+  induction s as [|c t IH]; intros cur n H; [reflexivity|].
+  cbn [scan_lines_aux split_lines_aux] in *. destruct (c =? 10).
+  - specialize (IH [] 0). destruct (scan_lines_aux [] 0 t) as [ls e]. cbn [fst snd] in *. rewrite IH by exact H. reflexivity.
+  - destruct (max_scan_token <=? n + 1); [discriminate H|]. apply IH. exact H.
+Qed.
+
+Lemma scan_lines_ok text : snd (scan_lines text) = false -> fst (scan_lines text) = split_lines text.
+Proof. apply scan_lines_aux_ok. Qed.
+
+(** it gives up only on a line of at least 64 KiB: [n] bytes are already in the current line *)
+Lemma scan_lines_aux_short : forall s cur n,
+  n + N.of_nat (length s) < max_scan_token -> snd (scan_lines_aux cur n s) = false.
+Proof.
+  induction s as [|c t IH]; intros cur n H; [reflexivity|].
+  cbn [scan_lines_aux]. cbn [length] in H. destruct (c =? 10).
+  - specialize (IH [] 0). destruct (scan_lines_aux [] 0 t) as [ls e]. cbn [snd] in *. apply IH. lia.
+  - destruct (N.leb_spec max_scan_token (n + 1)); [lia|]. apply IH. lia.
+Qed.
+
+Lemma scan_lines_short text : N.of_nat (length text) < max_scan_token -> snd (scan_lines text) = false.
+Proof. intro H. apply scan_lines_aux_short. lia. Qed.
+
+(** the rule strings of the lines the scanner delivers *)
+Definition delivered_rules (text : str) : list str :=
+  filter nonempty (map clean_line (fst (scan_lines text))).
+
 Section LoaderFacts.
   Context {V : Type}.
   Variable re_valid : str -> bool.
@@ -1109,12 +1139,37 @@ Section LoaderFacts.
         * cbn [fst snd]. split; [reflexivity|]. split; intro H; exfalso; lia.
   Qed.
 
-  (** LoadFromTextReader = Load on every rule string of the text, stopping at the first error *)
-  Lemma load_text_rules text (m : mix) :
-    fst (load_text re_valid parse dflt text m) = fst (load_list re_valid parse dflt 0 (text_rules text) m) /\
+  (** LoadFromTextReader = Load on every rule string the scanner delivers, stopping at
+      the first error; it reports success only if no Load failed AND the scanner did
+      not give up ([return scanner.Err()]). *)
+  Lemma load_text_scanned text (m : mix) :
+    fst (load_text re_valid parse dflt text m) =
+      fst (load_list re_valid parse dflt 0 (delivered_rules text) m) /\
     (snd (load_text re_valid parse dflt text m) = 0 <->
-     snd (load_list re_valid parse dflt 0 (text_rules text) m) = 0).
-  Proof. apply load_lines_list. Qed.
+     snd (load_list re_valid parse dflt 0 (delivered_rules text) m) = 0 /\ snd (scan_lines text) = false).
+  Proof.
+    unfold load_text, delivered_rules. destruct (scan_lines text) as [ls g]. cbn [fst snd].
+    destruct (load_lines_list ls 0 0 m) as [H1 H2].
+    destruct (load_lines re_valid parse dflt 0 ls m) as [m' e]. cbn [fst snd] in H1, H2.
+    destruct (N.eqb_spec e 0) as [->|Hne]; cbn [negb].
+    - destruct g; cbn [fst snd].
+      + split; [exact H1|]. split; [intro H; exfalso; lia | intros [_ H]; discriminate].
+      + split; [exact H1|]. split; [intros _; split; [apply H2; reflexivity | reflexivity] | reflexivity].
+    - cbn [fst snd]. split; [exact H1|]. split; [intro H; contradiction | intros [H _]; apply H2 in H; contradiction].
+  Qed.
+
+  (** A load that reports success has loaded EVERY rule line of the whole text. *)
+  Lemma load_text_complete text (m : mix) :
+    snd (load_text re_valid parse dflt text m) = 0 ->
+    snd (scan_lines text) = false /\
+    fst (load_text re_valid parse dflt text m) = fst (load_list re_valid parse dflt 0 (text_rules text) m) /\
+    snd (load_list re_valid parse dflt 0 (text_rules text) m) = 0.
+  Proof.
+    intro H. destruct (load_text_scanned text m) as [H1 H2]. apply H2 in H as [Hl Hs].
+    assert (E : delivered_rules text = text_rules text)
+      by (unfold delivered_rules, text_rules; rewrite (scan_lines_ok text Hs); reflexivity).
+    rewrite E in *. auto.
+  Qed.
 
   (** a sequence of Loads without error = Add of the parsed (pattern, value) pairs, all accepted *)
   Lemma load_list_ok : forall ss idx (m m' : mix),
@@ -1163,12 +1218,15 @@ Proof.
 Qed.
 
 (** strings.TrimSpace: strips white space at both ends and nothing else *)
+Lemma frev_rev s : frev s = rev s.
+Proof. unfold frev. symmetry. apply rev_alt. Qed.
+
 Lemma trim_space_spec s :
   exists a b, s = a ++ trim_space s ++ b /\ all_space a /\ all_space b /\
     match trim_space s with [] => True | c :: _ => is_space c = false end /\
     match rev (trim_space s) with [] => True | c :: _ => is_space c = false end.
 Proof.
-  unfold trim_space. destruct (trim_left_spec s) as (a & Ha & Hsa & Hha).
+  unfold trim_space. rewrite !frev_rev. destruct (trim_left_spec s) as (a & Ha & Hsa & Hha).
   destruct (trim_left_spec (rev (trim_left s))) as (b & Hb & Hsb & Hhb).
   exists a, (rev b). rewrite rev_involutive.
   assert (Hts : trim_left s = rev (trim_left (rev (trim_left s))) ++ rev b).
